@@ -972,7 +972,9 @@ impl C10 {
                     "poly" => (case.kernel.gamma.abs() * absdot + case.kernel.coef0.abs()).powf(case.kernel.degree),
                     _ => 1.0,
                 }
-                .max(f64::MIN_POSITIVE);
+                // ... and values below its normal range underflow legitimately (x^19 for |x| < 0.03 is 0 in f32): no relative
+                // accuracy can be asked for there, the error is judged against the smallest normal number instead
+                .max(if case.f32m { f32::MIN_POSITIVE as f64 } else { f64::MIN_POSITIVE });
                 // values beyond the range of the element type overflow to inf legitimately (degree 5 on offsets of 1e4 in f32)
                 let tmax = if case.f32m { f32::MAX as f64 } else { f64::MAX };
                 if want.is_finite() && want.abs() < tmax * 1e-3 && den < tmax * 1e-3 {
